@@ -30,7 +30,7 @@ theorem finishLoader_susp {s : Sys} {n : Name} {nd : Node} {l : LId} {tk' : TDef
   all_goals first | exact h | (simp at h)
 
 theorem evalCreator_susp {inp : Input} {s : Sys} {l : LId} {tname : Name} {m : Name}
-    (h : (evalCreator inp s l tname).susp = .yielded m) : s.susp = .yielded m := by
+    (h : (evalCreator inp s l tname b).susp = .yielded m) : s.susp = .yielded m := by
   unfold evalCreator at h
   repeat' split at h
   all_goals first | exact h | (simp at h)
